@@ -15,3 +15,4 @@ import TephraProps.C19
 #print axioms Tephra.Props.C19_total
 #print axioms Tephra.Props.C19_next_then_previous
 #print axioms Tephra.Props.C19_previous_then_next
+#print axioms Tephra.Props.C19_iter_columns
